@@ -424,8 +424,11 @@ def main(modname, tier, seed):
             known_hits[sig] = (ent[0], kf)
         else:
             new_sigs[sig] = ent
+    by_finding = {}
     for sig, (cnt, kf) in sorted(known_hits.items()):
-        print("KNOWN-FINDING: property=%s %s [signature %s, %d cases]" % (pid, kf, sig, cnt))
+        by_finding.setdefault(kf, []).append("%s x%d" % (sig, cnt))
+    for kf, sigs in by_finding.items():
+        print("KNOWN-FINDING: property=%s %s [%s]" % (pid, kf, "; ".join(sigs)))
     budget = int(os.environ.get("VERIF_SHRINK_BUDGET", "150" if tier == "quick" else "1500"))
     rc = 0
     sig_report = {}
